@@ -29,6 +29,7 @@ def run(tier, seed):
         if not c.unit.ok: continue
         for tag, expr in classes:
             if tag == 'acc' and not c.b['accepted']: continue
+            if tag == 'syn' and not getattr(c.g, 'tkinds', None) and not c.b.get('syn_only', 1): continue   # e.g. nrun3: every term sequence is in the language
             q = c.query(witness=True, witness_expr=expr, wtag=tag, timeout=1200, mem_gb=12); q.mode = 'functional'; q.meta['wclass'] = tag
             wq.append(q)
     wres = vlib.run_queries(wq)
